@@ -9,7 +9,7 @@ CONSTANTS
   SlotDefs <- FlatSlots5
   Sizes <- Sz13
   WWs = {1, 2}
-  MWs = {1, 2}
+  MWs = {1}
   NWs = {1}
   GWs = {1}
   Buds = {0}
